@@ -424,6 +424,40 @@ def install_store(interp, store, make_sibling=None):
     return store
 
 
+class VarStores:
+    """All mappings in which an interpreter keeps variable values: its `context` and any mapping it chains with it
+    (e.g. a separate namespace for per-step variables).  Lets a harness snapshot / restore / read the complete variable
+    state without assuming that everything lives in one dict."""
+
+    def __init__(self, interp):
+        import collections
+        self.maps = [interp.context]
+        owners = [interp] + [v for v in vars(interp).values()
+                             if hasattr(v, "__dict__") and not isinstance(v, type)
+                             and type(v).__module__.split(".")[0] in ("dagrt", "pymbolic")]
+        for o in owners:
+            for val in vars(o).values():
+                if isinstance(val, collections.ChainMap):
+                    for m in val.maps:
+                        if isinstance(m, dict) and all(m is not x for x in self.maps):
+                            self.maps.append(m)
+
+    def snap(self):
+        return [{k: (v.copy() if hasattr(v, "copy") else v) for k, v in m.items()} for m in self.maps]
+
+    def restore(self, snaps):
+        for m, sn in zip(self.maps, snaps):
+            m.clear()
+            for k, v in sn.items():
+                m[k] = v.copy() if hasattr(v, "copy") else v
+
+    def merged(self):
+        out = {}
+        for m in reversed(self.maps):
+            out.update(m)
+        return out
+
+
 def persistent_names(dag):
     """every persistent name (<t>, <dt>, <state>*, <p>*) a statement of the method declares as read or written"""
     out = set()
